@@ -31,7 +31,7 @@ import (
 var wantedFuncs = []string{
 	"tokAllowedChar", "resCharSigFlag", "multipleValsOk",
 	"HdrFlags.Test", "HdrFlags.Set", "HdrFlags.Clear", "HdrFlags.Reset",
-	"PField.Empty", "SIPMethod.Name", "hexDigToI", "skipCRLF",
+	"PField.Empty", "PField.Set", "PField.Extend", "PField.Reset", "SIPMethod.Name", "hexDigToI", "skipCRLF",
 	"PCallIDBody.Parsed", "PCallIDBody.Empty", "PCallIDBody.Pending",
 	"PUIntBody.Parsed", "PUIntBody.Empty", "PUIntBody.Pending",
 	"PCSeqBody.Parsed", "PCSeqBody.Empty", "PCSeqBody.Pending",
@@ -59,6 +59,8 @@ type ftr struct {
 	nores  bool            // no result: returns the (pointer) receiver value
 	names  map[string]bool // every variable name declared so far (parameters, results, locals): a second declaration
 	// of a name (shadowing in an inner block) is outside the subset
+	wrL  []string // struct pointer receiver: the fields the body assigns, in order of first assignment
+	wrT  []string
 	mon  bool // the body reads a slice element: results are `Option` (none = index out of range, Go would panic)
 	tmp  int
 	logs map[string]bool
@@ -87,9 +89,10 @@ func leanType(t types.Type) string {
 		return "UInt64"
 	case types.Int, types.UntypedInt, types.UntypedRune:
 		// Go's `int` as a mathematical integer. Sound only where no 64-bit overflow can happen: the translator accepts
-		// on `int` values nothing but comparisons, `+` / `-` with a CONSTANT operand (offset arithmetic), conversions from
-		// unsigned types and to unsigned types; `*`, bit operations, shifts, negation and the narrower signed types
-		// (int8/16/32/64, whose conversions wrap) are rejected. Assumed (Sipsp/GoSem.lean): |value| < 2^62.
+		// on `int` values nothing but comparisons, `+` / `-`, conversions from unsigned types and to unsigned types;
+		// `*`, bit operations, shifts, negation and the narrower signed types (int8/16/32/64, whose conversions wrap)
+		// are rejected, and there are no loops. Assumed (Sipsp/GoSem.lean): int PARAMETERS are below 2^40 in magnitude
+		// (offsets, counters), so no intermediate value of a loop-free, multiplication-free function can reach 2^63.
 		return "Int"
 	case types.Int64, types.Int32, types.Int16, types.Int8:
 		bail("signed type %s", b)
@@ -258,13 +261,6 @@ func (f *ftr) binop(x *ast.BinaryExpr, a, b string) string {
 	if lt == "Int" && (op == "&&&" || op == "|||" || op == "^^^" || op == "*") {
 		bail("bit operation / multiplication on int")
 	}
-	if lt == "Int" && (op == "+" || op == "-") {
-		_, cx := f.info.Types[x.X]
-		_, cy := f.info.Types[x.Y]
-		if !(cx && f.info.Types[x.X].Value != nil) && !(cy && f.info.Types[x.Y].Value != nil) {
-			bail("int arithmetic without a constant operand")
-		}
-	}
 	return "(" + a + " " + op + " " + b + ")"
 }
 
@@ -285,6 +281,19 @@ func (f *ftr) conv(x *ast.CallExpr, a string) string {
 		return "(Int.ofNat (" + a + ").toNat)"
 	}
 	return "(" + a + ".to" + to + ")"
+}
+
+func hasPanic(n ast.Node) bool {
+	found := false
+	ast.Inspect(n, func(x ast.Node) bool {
+		if c, ok := x.(*ast.CallExpr); ok {
+			if id, ok := c.Fun.(*ast.Ident); ok && id.Name == "panic" {
+				found = true
+			}
+		}
+		return !found
+	})
+	return found
 }
 
 func hasIndex(n ast.Node) bool {
@@ -355,6 +364,12 @@ func (f *ftr) mexpr(e ast.Expr) string {
 }
 
 func (f *ftr) retVal() string {
+	if len(f.wrL) > 0 {
+		if len(f.wrL) == 1 {
+			return f.wrL[0]
+		}
+		return "(" + strings.Join(f.wrL, ", ") + ")"
+	}
 	if f.nores {
 		return "v_" + f.recv
 	}
@@ -373,7 +388,7 @@ func (f *ftr) retVal() string {
 func (f *ftr) stmts(ss []ast.Stmt, k string, ind string) string {
 	if len(ss) == 0 {
 		if k == "" {
-			if f.nores || len(f.res) > 0 {
+			if f.nores || len(f.res) > 0 || len(f.wrL) > 0 {
 				if f.mon {
 					return "(some " + f.retVal() + ")"
 				}
@@ -404,6 +419,13 @@ func (f *ftr) stmts(ss []ast.Stmt, k string, ind string) string {
 			}
 			return "(" + out + ")"
 		case *ast.AssignStmt:
+			if len(x.Lhs) == 1 && len(x.Rhs) == 1 && x.Tok == token.ASSIGN {
+				if sel, ok := x.Lhs[0].(*ast.SelectorExpr); ok {
+					if id, ok := sel.X.(*ast.Ident); ok && id.Name == f.recv && f.strct != nil {
+						return "(Option.bind " + f.mexpr(x.Rhs[0]) + " (fun v_" + id.Name + "_" + sel.Sel.Name + " =>\n" + ind + f.stmts(rest, k, ind) + "))"
+					}
+				}
+			}
 			if len(x.Lhs) == 1 && len(x.Rhs) == 1 && (x.Tok == token.ASSIGN || x.Tok == token.DEFINE) {
 				if l, ok := x.Lhs[0].(*ast.Ident); ok {
 					if x.Tok == token.DEFINE {
@@ -432,9 +454,12 @@ func (f *ftr) stmts(ss []ast.Stmt, k string, ind string) string {
 				if id, ok := c.Fun.(*ast.Ident); ok && f.logs[id.Name] {
 					return f.stmts(rest, k, ind)
 				}
+				if id, ok := c.Fun.(*ast.Ident); ok && id.Name == "panic" {
+					return "none" // Go panics here: no result
+				}
 			}
 		}
-		bail("statement %T in a function that indexes a slice", s)
+		bail("statement %T in a function that indexes a slice / panics", s)
 	}
 	switch x := s.(type) {
 	case *ast.ReturnStmt:
@@ -674,6 +699,43 @@ func emitFuncs(files []*ast.File, info *types.Info, pkg *types.Package) (string,
 			if len(rts) > 0 && f.recvPt {
 				bail("pointer receiver to an integer type together with a result")
 			}
+			// a pointer receiver to a STRUCT whose scalar fields are assigned: every assigned field is a parameter (its
+			// value on entry) and a component of the result (its value on return)
+			if f.strct != nil && len(rts) == 0 {
+				ast.Inspect(fd.Body, func(n ast.Node) bool {
+					if as, ok := n.(*ast.AssignStmt); ok {
+						for _, l := range as.Lhs {
+							if sel, ok := l.(*ast.SelectorExpr); ok {
+								if id, ok := sel.X.(*ast.Ident); ok && id.Name == f.recv {
+									if as.Tok != token.ASSIGN || len(as.Lhs) != 1 {
+										bail("field assignment form")
+									}
+									nm := "v_" + id.Name + "_" + sel.Sel.Name
+									if !f.fields[sel.Sel.Name] {
+										f.fields[sel.Sel.Name] = true
+										lt := leanType(info.Types[sel].Type)
+										f.fieldL = append(f.fieldL, "("+nm+" : "+lt+")")
+									}
+									seen := false
+									for _, w := range f.wrL {
+										seen = seen || w == nm
+									}
+									if !seen {
+										f.wrL = append(f.wrL, nm)
+										f.wrT = append(f.wrT, leanType(info.Types[sel].Type))
+									}
+								}
+							}
+						}
+					}
+					return true
+				})
+				if len(f.wrL) == 0 {
+					bail("no result")
+				}
+				rts = f.wrT
+				f.mon = true
+			}
 			if len(rts) == 0 {
 				if !f.recvPt {
 					bail("no result")
@@ -681,7 +743,7 @@ func emitFuncs(files []*ast.File, info *types.Info, pkg *types.Package) (string,
 				f.nores = true
 				rts = []string{leanType(info.Defs[fd.Recv.List[0].Names[0]].Type().(*types.Pointer).Elem())}
 			}
-			f.mon = hasIndex(fd.Body)
+			f.mon = f.mon || hasIndex(fd.Body) || hasPanic(fd.Body)
 			if f.mon && (len(f.res) > 0 || f.nores) {
 				bail("named results / pointer receiver in a function that indexes a slice")
 			}
